@@ -64,9 +64,13 @@ Definition ext_hrr_only : list (Z * fmt) := [
   (51,    FU 2);                                                          (* HRRKeyShareExtension *)
   (43,    FSeq (FU 1) (FU 1))
 ].
-(* _certificateExtensions (:2257): CertificateEntry (delegated_credential not modelled) *)
+(* x509.py:462-497 DelegatedCredential: valid_time, dc_cert_verify_algorithm, SubjectPublicKeyInfo<3>
+   (DER content outside the model), algorithm, signature<2> *)
+Definition DelegatedCredentialF := fseq [FU 4; FU 1; FU 1; FVar 3; FU 1; FU 1; FVar 2].
+(* _certificateExtensions (:2257): CertificateEntry *)
 Definition ext_cert_only : list (Z * fmt) := [
-  (5,     FSeq (FConst 1 1) (FVar 3))                                     (* CertificateStatusExtension *)
+  (5,     FSeq (FConst 1 1) (FVar 3));                                    (* CertificateStatusExtension *)
+  (34,    DelegatedCredentialF)                                           (* DelegatedCredentialCertExtension :1360 *)
 ].
 
 Inductive ectx := CtxUniversal | CtxServer | CtxHRR | CtxCert.
@@ -159,6 +163,23 @@ Definition fmt_SessionTicketPayload := FTag 2 (fun ver =>
 
 (* names used by the harness *)
 Definition fmt_Ext (c : ectx) := Ext c.
+
+(* ---- irregular layouts ------------------------------------------------------------------- *)
+(* CompressedCertificate (:2554-2590): framing only; that the blob inflates to a Certificate
+   body of the declared size is outside the model *)
+Definition fmt_CompressedCertificate := Msg 25 (fseq [FU 2; FU 3; FVarR 3 1 16777215]).
+
+(* RecordHeader2 (:106-150): the first byte carries the header form (0x80 = 2-byte header,
+   otherwise 3-byte header with a padding byte), the security-escape bit and the high length bits *)
+Definition fmt_RecordHeader2 := FTag 1 (fun b => if 128 <=? b then FU 1 else FSeq (FU 1) (FU 1)).
+
+(* ClientHello, SSLv2 form (:605-621, :653-671): type, version, then the three lengths
+   (modelled as tags) followed by the three fields of exactly those lengths; a cipher-spec
+   length that is not a multiple of 3 is rejected by the length check *)
+Definition fmt_ClientHelloSSL2 := FSeq (FConst 1 1) (fseq [FU 1; FU 1;
+  FTag 2 (fun cl => FTag 2 (fun sl => FTag 2 (fun rl =>
+    if (0 <=? cl) && (cl mod 3 =? 0) && (0 <=? sl) && (0 <=? rl)
+    then fseq [FFix cl; FFix sl; FFix rl] else FFail)))]).
 
 (* ---- example value used by Props/C15.v ------------------------------------------------ *)
 (* a ClientHello with session id, two suites, SNI + supported_groups + an unknown extension *)
